@@ -159,7 +159,14 @@ class Lib:
         ctor = cands[0]
         cn = tr._callee_cname(P, ctor)
         args = P.call_args(ctor, A)
-        return '(*(vec_%s_emplace_slot(%s), %s(vec_%s_back(%s)%s), vec_%s_back(%s)))' % (m, vaddr, cn, m, vaddr, ''.join(', ' + a for a in args), m, vaddr)
+        # C++ evaluates the constructor arguments before the vector grows (they may read the old size()): evaluate them
+        # into temporaries first
+        pre = []
+        for i, a in enumerate(args):
+            cty = tr.ctype_t(tr.tparse(tr.fn_params(ctor)[i]['type']))
+            tmp = P.new_temp(lambda nm, cty=cty: '%s %s' % (cty, nm))
+            pre.append('%s = %s' % (tmp, a)); args[i] = tmp
+        return '(*(%svec_%s_emplace_slot(%s), %s(vec_%s_back(%s)%s), vec_%s_back(%s)))' % (''.join(x + ', ' for x in pre), m, vaddr, cn, m, vaddr, ''.join(', ' + a for a in args), m, vaddr)
 
     def find_if(self, P, n, args):
         """std::find_if(first, last, capture-less lambda) over pointers or reverse iterators: a generated helper with a loop
@@ -398,6 +405,12 @@ class Lib:
         if cat == 'opt':
             if not A: return '((%s){0})' % cty
             return self.to_opt(P, t, A[0])
+        if cat == 'stdfn':
+            if not A: return '((struct stdfn){0, 0})'
+            x = P.skip(A[0])
+            while x.get('kind') in ('MaterializeTemporaryExpr', 'CXXBindTemporaryExpr', 'ImplicitCastExpr') and x.get('inner'): x = P.skip(x['inner'][0])
+            if x.get('kind') == 'LambdaExpr': return tr.lambda_expr(P, x, as_stdfn=True)
+            if same(): return P.ex(A[0])
         if cat == 'umap':
             if not A: return '((%s){0})' % cty
             if same() and not P.is_glvalue(A[0]): return P.ex(A[0])
